@@ -1103,4 +1103,75 @@ theorem completes_after_return (c : C) (call : Api) (k : Kind) (id tag : Nat) (a
     subst hrest
     simp [List.takeWhile_cons, hrid, hrtag]
 
+/-! ### inbound QoS 2 -/
+
+theorem runOuts_append (c : C) (a b : List Ev) : runOuts c (a ++ b) = runOuts c a ++ runOuts (runState c a) b := by
+  induction a generalizing c with
+  | nil => rfl
+  | cons ev a ih => simp [runOuts, runState_cons, ih]
+
+theorem peer_publish2 (c : C) (p : Pub) (hq : p.qos = 2) :
+    peer c (.publish p) =
+      ({ c with pub2in := c.pub2in.wait { id := p.pktid, pub := some p } }, [.wrote (.pubrec p.pktid)]) := by
+  simp [peer, hq]
+
+theorem wait_dup (q : Queue) (r : Req) (h : ∃ e ∈ q, e.id = r.id) : q.wait r = q := by
+  obtain ⟨e, he, hid⟩ := h
+  have : q.any (fun e => e.id == r.id) = true := List.any_eq_true.mpr ⟨e, he, by simpa using hid⟩
+  simp [Queue.wait, this]
+
+/-- a QoS 2 PUBLISH whose identifier is already open changes nothing and is only answered by PUBREC -/
+theorem peer_publish2_dup (c : C) (p : Pub) (hq : p.qos = 2) (h : ∃ e ∈ c.pub2in, e.id = p.pktid) :
+    peer c (.publish p) = (c, [.wrote (.pubrec p.pktid)]) := by
+  rw [peer_publish2 c p hq, wait_dup c.pub2in _ h]
+
+theorem run_dups (c : C) (hc : c.connected = true) (id : Nat) (h : ∃ e ∈ c.pub2in, e.id = id) (dups : List Pub)
+    (hd : ∀ d ∈ dups, d.qos = 2 ∧ d.pktid = id) :
+    runState c (dups.map (fun d => Ev.peer (.publish d))) = c ∧
+    runOuts c (dups.map (fun d => Ev.peer (.publish d))) = dups.map (fun _ => [Out.wrote (.pubrec id)]) := by
+  induction dups with
+  | nil => exact ⟨rfl, rfl⟩
+  | cons d dups ih =>
+    obtain ⟨hq, hid⟩ := hd d (by simp)
+    have hs : step c (.peer (.publish d)) = (c, [.wrote (.pubrec id)]) := by
+      rw [step_peer c hc, peer_publish2_dup c d hq (by rw [hid]; exact h), hid]
+    have ih' := ih (fun x hx => hd x (by simp [hx]))
+    simp only [List.map_cons, runState_cons, runOuts, hs, ih'.1, ih'.2, and_self]
+
+theorem onPublish_congr (c c' : C) (h : c'.topics = c.topics) (p : Pub) : onPublish c' p = onPublish c p := by
+  simp [onPublish, h]
+
+/-- one whole inbound QoS 2 exchange, with any number of repeated PUBLISHes, on an empty receive queue -/
+theorem qos2_exchange (c : C) (hc : c.connected = true) (he : c.pub2in = []) (p : Pub) (hq : p.qos = 2)
+    (dups : List Pub) (hd : ∀ d ∈ dups, d.qos = 2 ∧ d.pktid = p.pktid) :
+    runOuts c (.peer (.publish p) :: dups.map (fun d => Ev.peer (.publish d)) ++ [.peer (.pubrel p.pktid)]) =
+      [.wrote (.pubrec p.pktid)] :: dups.map (fun _ => [Out.wrote (.pubrec p.pktid)]) ++
+        [onPublish c p ++ [.wrote (.pubcomp p.pktid)]] ∧
+    runState c (.peer (.publish p) :: dups.map (fun d => Ev.peer (.publish d)) ++ [.peer (.pubrel p.pktid)]) = c := by
+  have h1 : step c (.peer (.publish p)) =
+      ({ c with pub2in := [{ id := p.pktid, pub := some p }] }, [.wrote (.pubrec p.pktid)]) := by
+    rw [step_peer c hc, peer_publish2 c p hq, he]; rfl
+  let c1 : C := { c with pub2in := [{ id := p.pktid, pub := some p }] }
+  have hc1 : c1.connected = true := hc
+  have hopen : ∃ e ∈ c1.pub2in, e.id = p.pktid := ⟨_, List.mem_singleton.mpr rfl, rfl⟩
+  obtain ⟨d1, d2⟩ := run_dups c1 hc1 p.pktid hopen dups hd
+  have h3 : step c1 (.peer (.pubrel p.pktid)) = (c, onPublish c p ++ [.wrote (.pubcomp p.pktid)]) := by
+    rw [step_peer c1 hc1]
+    have hacked : (Queue.ack c1.pub2in tPUBREL p.pktid).acked =
+        ([], [{ id := p.pktid, state := tPUBREL, pub := some p }]) := by
+      simp [c1, Queue.ack, Queue.acked, terminal_PUBREL, List.takeWhile_cons, List.dropWhile_cons]
+    simp only [peer, hacked, List.flatMap_cons, List.flatMap_nil, List.append_nil]
+    have hcc : ({ c1 with pub2in := [] } : C) = c := by
+      simp only [c1]; rw [← he]
+    rw [hcc]
+  constructor
+  · rw [List.cons_append, runOuts, h1]
+    show _ :: runOuts c1 _ = _
+    rw [runOuts_append, d1, d2]
+    simp only [runOuts, h3, List.cons_append]
+  · rw [List.cons_append, runState_cons, h1]
+    show runState c1 _ = _
+    rw [runState_append, d1]
+    simp only [runState, List.foldl_cons, List.foldl_nil, h3]
+
 end Mqtt.Proofs.Client
